@@ -165,13 +165,13 @@ def gen_cases(rng, tier, ns):
 
 WITNESSES = [
     # (name, repair index, n, line)       -- replayed on every run; decide which model variant the tree matches
-    ('F2-var', 0, 2, 'CASE w1 put_vara rec safe=0 hcoll=0 aggr=0 indep=0 nr=2 tmo=8 | E edge | V 3'),
-    ('F2-vard', 0, 2, 'CASE w2 put_vard rec safe=0 hcoll=0 aggr=0 indep=0 nr=2 tmo=8 | E einval | V 3'),
-    ('fill', 1, 2, 'CASE w3 fill_var_rec rec safe=0 hcoll=0 aggr=0 indep=0 nr=2 tmo=8 | V 3 | E notrec'),
-    ('meta-rename', 2, 2, 'CASE w4 rename_var rec safe=0 hcoll=1 aggr=0 indep=0 nr=0 tmo=8 | - | E badname'),
-    ('meta-enddef', 2, 2, 'CASE w5 enddef_ rec safe=0 hcoll=1 aggr=0 indep=0 nr=2 tmo=8 | - | E einval'),
-    ('safe-fill', -1, 3, 'CASE w6 fill_var_rec rec safe=1 hcoll=0 aggr=0 indep=0 nr=2 tmo=8 | V 3 | E notfill | V 5'),
-    ('F2-aggr', 0, 3, 'CASE w7 put_vars rec safe=0 hcoll=0 aggr=1 indep=0 nr=2 tmo=8 | V 3 | E stride | V 4'),
+    ('F2-var', 0, 2, 'CASE w1 put_vara rec safe=0 hcoll=0 aggr=0 indep=0 nr=2 tmo=12 | E edge | V 3'),
+    ('F2-vard', 0, 2, 'CASE w2 put_vard rec safe=0 hcoll=0 aggr=0 indep=0 nr=2 tmo=12 | E einval | V 3'),
+    ('fill', 1, 2, 'CASE w3 fill_var_rec rec safe=0 hcoll=0 aggr=0 indep=0 nr=2 tmo=12 | V 3 | E notrec'),
+    ('meta-rename', 2, 2, 'CASE w4 rename_var rec safe=0 hcoll=1 aggr=0 indep=0 nr=0 tmo=12 | - | E badname'),
+    ('meta-enddef', 2, 2, 'CASE w5 enddef_ rec safe=0 hcoll=1 aggr=0 indep=0 nr=2 tmo=12 | - | E einval'),
+    ('safe-fill', -1, 3, 'CASE w6 fill_var_rec rec safe=1 hcoll=0 aggr=0 indep=0 nr=2 tmo=12 | V 3 | E notfill | V 5'),
+    ('F2-aggr', 0, 3, 'CASE w7 put_vars rec safe=0 hcoll=0 aggr=1 indep=0 nr=2 tmo=12 | V 3 | E stride | V 4'),
 ]
 
 
@@ -309,7 +309,7 @@ def judge(case, model, obs, V, stats):
             elif ht != mtr:
                 tie = 'rank %d returned with tr=%s, model %s' % (r, ','.join(ht) or '-', ','.join(mtr) or '-')
                 break
-        else:
+        elif not H:
             tie = 'rank %d produced no output' % r
             break
     if tie is None and model['completed'] and hang:
@@ -374,25 +374,12 @@ def run_check(tier, seed):
         ns = [2, 3] if tier == 'quick' else [2, 3, 4, 6, 8]
         t1 = Timer()
         pool = concurrent.futures.ThreadPoolExecutor(max_workers=8)
-        # witnesses first: which repairs does this tree contain?
-        wf = {w[0]: pool.submit(run_harness, exe, wd, 'w_' + w[0], w[2], [w[3]], 60) for w in WITNESSES}
-        wres = {k: f.result() for k, f in wf.items()}
-        rp = [None, None, None]
-        for name, idx, n, line in WITNESSES:
-            if idx < 0:
-                continue
-            cid = line.split()[1]
-            o = wres[name][0].get(cid)
-            clean = bool(o) and len(o['R']) == n and not o['H'] and len(set(tuple(o['R'][r][1]) for r in o['R'])) == 1
-            if rp[idx] is None:
-                rp[idx] = clean
-            elif rp[idx] != clean:
-                rp[idx] = False     # repaired at one site only: treat as unrepaired, the differing site shows up as a tie difference
-        rps = ''.join('1' if x else '0' for x in rp)
-        log('[S4] repairs present in this tree (zeroPathNumrecs, fillVarRecErr, metaErrJoins) = %s' % rps)
+        # witnesses (launched now, evaluated below): which repairs does this tree contain?
+        wf = {w[0]: pool.submit(run_harness, exe, wd, 'w_' + w[0], w[2], [w[3]], 90) for w in WITNESSES}
         cases = gen_cases(rng, tier, ns)
         lays = {}
-        model1 = lean_model(drv, [c['line'] for c in cases], rps, lays)
+        # which cases may leave the common sequence (judged with the unrepaired model: a superset for any tree)
+        model1 = lean_model(drv, [c['line'] for c in cases], '000', lays)
         risky, calm = [], []
         for c in cases:
             m = model1.get(c['id'])
@@ -434,7 +421,21 @@ def run_check(tier, seed):
         for cid, f in futs.items():
             res, ended, rc = f.result()
             obs.update(res)
+        wres = {k: f.result() for k, f in wf.items()}
         pool.shutdown()
+        rp = [None, None, None]
+        for name, idx, n, line in WITNESSES:
+            if idx < 0:
+                continue
+            cid = line.split()[1]
+            o = wres[name][0].get(cid)
+            clean = bool(o) and len(o['R']) == n and not o['H'] and len(set(tuple(o['R'][r][1]) for r in o['R'])) == 1
+            if rp[idx] is None:
+                rp[idx] = clean
+            elif rp[idx] != clean:
+                rp[idx] = False     # repaired at one site only: treat as unrepaired, the differing site shows up as a tie difference
+        rps = ''.join('1' if x else '0' for x in rp)
+        log('[S4] repairs present in this tree (zeroPathNumrecs, fillVarRecErr, metaErrJoins) = %s' % rps)
         for cid, o in obs.items():
             if o.get('L'):
                 lays[cid] = o['L']
